@@ -35,7 +35,7 @@ def parse(text):
         line = raw.rstrip("\r")
         if not line.strip():
             continue
-        if line.startswith(">"):
+        if line.startswith(">") and not re.match(r">\d", line):  # `>123` at line start is a 3'-partial coordinate, not a header
             if not line.startswith(">Feature"):
                 raise TblFormatError(f"line {lineno}: unknown header {line!r}")
             name = line.split(" ", 1)[1] if " " in line else ""
